@@ -353,6 +353,14 @@ func (w *World) DumpStore(ctx sdk.Context, name string) []KV {
 	return out
 }
 
+// ClearStore deletes every record of the named store (used to restart one module from its exported genesis).
+func (w *World) ClearStore(ctx sdk.Context, name string) {
+	st := ctx.KVStore(w.StoreKey(name))
+	for _, kv := range w.DumpStore(ctx, name) {
+		st.Delete(kv.K)
+	}
+}
+
 // HashStores hashes the named stores (sorted KV), the block height and time.
 func (w *World) HashStores(ctx sdk.Context, names []string, extra []byte) [32]byte {
 	h := sha256.New()
